@@ -15,19 +15,21 @@ var ruleC12 = ruleW2 + "C12: requests of several containers run concurrently (se
 var ruleC14 = ruleW2 + "C14: requests run one at a time (the quantifier is inputs x histories), with one exception that belongs to the histories of a real node: the teardown of an old sandbox " +
 	"(kubelet's container GC / PLEG cleanup) may overlap the ADD of the same pod's replacement sandbox, and DELs of earlier sandboxes may be repeated late; prior NAT tables with foreign chains, stale KUBE-HP-* chains and earlier jump rules; foreign " +
 	"processes bind ports (net.inuse), iptables calls fail (transient 'Resource temporarily unavailable' and hard), state-file writes fail; graceful daemon restarts re-run the full " +
-	"synchronisation; at the end every pod is torn down and the table is compared with the one after the first synchronisation. A run is non-trivial if at least one pod with host ports " +
+	"synchronisation (another process may take a handed-out port while the daemon is down: the rules must still be installed); pod Get/Update calls of the annotation write-back fail, conflict with edits by others, or meet a pod whose annotations were removed; plugins may print results without a usable IPv4 address; at the end every pod is torn down and the table is compared with the one after the first synchronisation. A run is non-trivial if at least one pod with host ports " +
 	"was set up successfully. distinct_nontrivial as above."
 
 var ruleC17 = ruleW2 + "C17: docker and containerd modes; GC directories and IP directories populated by real ADDs (the fake plugin leaves flannel/host-local style files) and by generated " +
 	"leftovers of containers in every runtime state plus non-container files; sandboxes die with and without DEL; inspect calls fail (runtime.err) or the runtime is unreachable " +
 	"(runtime.down); port files are damaged by short/failed writes of the daemon itself, by daemon crashes and as generated leftovers (empty, truncated, junk); operations do not overlap (the quantifier is inputs x fault sequences) but the two collectors of a round interleave. After faults stop two GC rounds run and the " +
-	"liveness clause is checked. A run is non-trivial if a GC task removed something or an inspect fault fired. distinct_nontrivial as above."
+	"liveness clause is checked. Under containerd the pods of sandboxes report container statuses (waiting / running / terminated mixes, lagging kubelet, replacement sandboxes); host network devices are generated too (host veths v-h<9 chars of id>[-x] of containers in every state, non-veth devices with that prefix, other prefixes, three-part names) and the veth collector runs with the others (deletions can fail). A run is non-trivial if a GC task removed something or an inspect fault fired. distinct_nontrivial as above."
 
 var assumeW2 = []string{
 	"real code: pkg/api/cniutil, pkg/galaxy (cni handler, requestFunc, resolveNetworks, port-mapping glue, setupIPtables, cleanIPtables), pkg/api/galaxy, pkg/api/k8s, pkg/network/portmapping, pkg/gc (collectors, shouldCleanup), pkg/api/docker (inspect wrappers over the real engine-api client), cni/ipam decoder; rewritten only at the seams (sync, time, wait, klog, map iteration, go statements; os/ioutil/libcni file access, cni invoke, net.Listen, netlink.LinkList)",
 	"stubbed: CNI plugin binaries (in-process recording plugin runtime with scripted outcomes), file system (in-memory; a process crash keeps every completed write, loses what was not yet written), sockets (port table with kernel-style ephemeral allocation), iptables (strict simulated kernel at the utiliptables.Interface seam), docker daemon (in-process round tripper behind the real engine-api client) and containerd (CRI client fake), kube-apiserver (simkube), kubelet (model)",
 	"strict kernel rules (each a documented behaviour of iptables/iptables-restore --noflush, nothing else is refused): a restore is applied to a private copy and committed at COMMIT, any failing line aborts it with nothing applied; a ':CHAIN' line creates a missing chain and flushes an existing user chain; -A/-I fail on a missing chain or jump target; -X fails on a non-empty or still referenced chain; -N on an existing chain exits 1; one Interface method = one atomic step (the real runner holds its mutex and the xtables lock)",
 	"C14: 'foreign' = every chain other than KUBE-HOSTPORTS, KUBE-HP-* and KUBE-MARK-MASQ (rewritten by galaxy on every setup by design); inside built-in chains galaxy may add its own jump rules to KUBE-HOSTPORTS; no daemon crash is injected (sockets cannot survive a process); obligations on held ports last until the sandbox's DEL has been issued; once no sandbox of a pod is left and its last DEL succeeded, no rule and no socket of that pod may remain",
+	"C17 veth: the statement lists files and port mappings; the collector of host veth devices is extra behaviour of the same GC and is judged by the same rule (deleted only for a container that may be collected and only after an answered inspect, nothing else is deleted, gone within two of its passes after faults stop); container runtimes resolve unique id prefixes",
+	"C17 containerd: a not-ready sandbox whose pod still reports a waiting or running container must NOT be collected (the containers live in its network namespace) and is not demanded by the liveness clause; assumption: the runtime eventually removes dead sandboxes that are not the pod's current one (kubelet's sandbox GC) or kubelet reports the containers as stopped, after which the two-round bound applies - the model lets this happen for about half of such sandboxes before the final rounds",
 	"C17: runtime states are monotone (a container never comes back to life); under containerd the liveness clause does not count galaxy's extra caution (a not-ready sandbox whose pod still reports a waiting/running container is kept) against it",
 	"a clean batch is evidence, not proof: configurations, histories, interleavings and faults are sampled from a seeded stream",
 }
